@@ -436,9 +436,13 @@ class Zygote:
                 k += 1
                 yield index, (index, seed, cfg)
 
+        digests = {}
+
         def on_result(index, rec):
             rec["type"] = "run"
             rec.setdefault("index", index)
+            if rec.get("digest") and not rec.get("harness_error"):
+                digests[index] = (rec["digest"], rec.get("seed"))
             vs = rec.get("violations") or []
             for v in vs:
                 f = match_finding(self.findings, v["signature"])
@@ -449,6 +453,27 @@ class Zygote:
 
         survey = bool(job.get("survey"))
         self.pool(tasks(), self.run_seeded, on_result, stop=lambda: (not survey) and len(unknown) >= 1)
+        # determinism self-test: the first few seeds once more, in other children of this zygote
+        # (scheduling of the children differs; the digest of every op and outcome must not)
+        n_again = int(job.get("determinism_runs", 8 if job.get("tier") == "quick" else 32))
+        again = sorted(digests)[:n_again]
+        divergent = []
+
+        def on_again(index, rec):
+            if rec.get("digest") != digests[index][0]:
+                divergent.append({"index": index, "seed": digests[index][1], "first": digests[index][0], "second": rec.get("digest"), "error": (rec.get("harness_error") or "")[-300:]})
+
+        def again_tasks():
+            for index in again:
+                cfg = dict(cfg0)
+                cfg["index"] = index
+                if avoid_opts and index % 2 == 1:
+                    cfg["avoid"] = avoid_opts
+                yield index, (index, run_seed(base, prop, index), cfg)
+
+        if again and not unknown:
+            self.pool(again_tasks(), self.run_seeded, on_again)
+            emit({"type": "determinism", "checked": len(again), "divergent": divergent})
         if survey:
             hist = {}
             for rec, v in unknown:
@@ -713,6 +738,9 @@ def run_check(prop, tier, base_seed, only_jit=None):
             r["jit"] = z["jit"]
         allrecs += recs
         cleanup_jobfiles(z, keep_log=bool(harness_errors))
+    for r in allrecs:
+        if r.get("type") == "determinism" and r.get("divergent"):
+            harness_errors.append(f"determinism self-test: {len(r['divergent'])} of {r['checked']} re-executed seeds gave another digest: {r['divergent'][:2]}")
     extra = {}
     if hasattr(mod, "extra_checks") and only_jit is None:
         # profile-specific checks that need their own interpreters (e.g. the public JIT switch)
@@ -863,6 +891,12 @@ def write_evidence(prop, tier, base_seed, recs, runs, viols, known_hit, harness_
         "zygotes": [dict(z.get("info", {}), jit=z.get("jit"), hashseed=z.get("hashseed")) for z in zinfo],
         "components": getattr(mod, "COMPONENTS", {}),
         "simulated_time_note": "uxarray has no timers; the only clock reader is the Exodus encoder (sim_clock)",
+        "determinism_selftest": {
+            "what": "the first seeds of each zygote re-executed in other forked children; run digests (SHA-256 over every op and canonical outcome) compared",
+            "seeds_reexecuted": sum(r.get("checked", 0) for r in recs if r.get("type") == "determinism"),
+            "divergent": sum(len(r.get("divergent") or []) for r in recs if r.get("type") == "determinism"),
+            "full_selftest_cmd": "/venv/bin/python /verif/check.py --selftest determinism --property <id> --n 200  (two zygotes, PYTHONHASHSEED 0 and 4242, 16 and 2 workers)",
+        },
     }
     cov.update(extra.get("coverage", {}))
     ev = {
